@@ -166,6 +166,9 @@ def run(prog, tier) -> Result:
         got = exact_rate(st, v)
         if not got.equals(want):
             return ("wrong rate", f"rate {got!r}, contract r(term)/r(unit) = {want!r}")
+        if st.rnd_depth(v.ta.rf) > 1:
+            return ("derived rate rounded more than once",
+                    f"stored amount {st.norm(v.ta.rf)!r}: the quotient of the base rates is rounded to six digits twice")
         return None
     for vt in ("int", "NoneType", "tuple", "date", None):
         cr.run("R11.3", MC("get_rate"), f"get_rate, validity kind {KINDS.get(vt, 'unset')}", setup_gr(vt), judge_gr,
@@ -262,6 +265,26 @@ def run(prog, tier) -> Result:
             return ("amount is not rate x amount", f"{got!r}, contract {want!r}")
         return None
     cr.run("R11.7", MC("__call__"), "__call__", setup_call, judge_call, min_paths=4)
+
+    # __call__ without a date: the period looked up derives from the configured callable
+    def setup_call_nodate(c):
+        conv, base = mk_converter(c, prog, "int")
+        m = c.qty("money", c.unit("cu", "M"))
+        c.st.distinct_units("cu", "ct") if False else None
+        return [conv, m, c.unit("ct", "M")], {}
+
+    def judge_call_nodate(o):
+        st = o.state
+        reads = [e for e in st.effects if e[0] == "ratetable-read"]
+        for e in reads:
+            key = e[2]
+            if isinstance(key, TupleV) and len(key.items) == 2:
+                got = validity_repr(key.items[0])
+                if got != "call(fn:dfltdate).year":
+                    return ("default effective date does not come from the configured callable",
+                            f"lookup period {got}, contract call(fn:dfltdate).year")
+        return None
+    cr.run("R11.6", MC("__call__"), "__call__ without date", setup_call_nodate, judge_call_nodate, min_paths=4)
 
     # ---- R11.2 / R11.5 update: key type, atomicity
     up = MC("update")
